@@ -38,11 +38,18 @@ def _pyval(x):
     raise xl.MachineryError(f'no cell content for {x}')
 
 
-def build_formula(case, blank='absent', origin=(3, 2)):
-    """-> (cells, formula text).  origin = (row, 0-based column >= 1) of the common block."""
+OTHER = 'Data 2'
+
+
+def build_formula(case, blank='absent', origin=(3, 2), split=False):
+    """-> (cells, formula text).  origin = (row, 0-based column >= 1) of the common block.
+    split: the FIRST range argument lives on another sheet and is written with its sheet name, the later ones stay
+    unqualified on the formula's sheet; the same addresses on the respective other sheet hold decoys."""
     orow, ocol = origin
+    first_range = True
     lay = case.get('lay') or [[0, 0]] * len(case['args'])
     cells = {}
+    decoys = {}
     parts = []
     nauto = 0
     for a, at in zip(case['args'], lay):
@@ -55,21 +62,30 @@ def build_formula(case, blank='absent', origin=(3, 2)):
         else:
             nauto += 1
             r0, c0 = orow + 14 * nauto, ocol
+        sheet, other = ('Sheet1', OTHER)
+        if split and first_range:
+            sheet, other = OTHER, 'Sheet1'
         for i, row in enumerate(rows):
             for j, x in enumerate(row):
-                addr = f'Sheet1!{COLS[c0 + j]}{r0 + i}'
+                addr = f'{sheet}!{COLS[c0 + j]}{r0 + i}'
+                if split:
+                    decoys[f'{other}!{COLS[c0 + j]}{r0 + i}'] = ('value', 7777)
                 if x['t'] == 'blank':
                     spec = ('blank',) if blank == 'absent' else ('value', None)
                 else:
                     spec = ('value', _pyval(x))
                 if cells.setdefault(addr, spec) != spec:
                     raise xl.MachineryError(f'inconsistent layout at {addr}')
-        parts.append(f'{COLS[c0]}{r0}:{COLS[c0 + len(rows[0]) - 1]}{r0 + len(rows) - 1}')
+        q = "'Data 2'!" if split and first_range else ''
+        first_range = False
+        parts.append(f'{q}{COLS[c0]}{r0}:{COLS[c0 + len(rows[0]) - 1]}{r0 + len(rows) - 1}')
+    for a, v in decoys.items():
+        cells.setdefault(a, v)
     return cells, '=' + case['f'] + '(' + ','.join(parts) + ')'
 
 
-def formula_eval(case, blank='absent', origin=(3, 2)):
-    cells, text = build_formula(case, blank, origin)
+def formula_eval(case, blank='absent', origin=(3, 2), split=False):
+    cells, text = build_formula(case, blank, origin, split)
     try:
         model, ev = xl.build_model(cells, {RESULT: text})
         res = ev.evaluate(RESULT)
@@ -91,6 +107,8 @@ def observe(case, path):
         return formula_eval(case, 'absent', case.get('origin') or (3, 2))
     if path == 'formula-none':
         return formula_eval(case, 'none', case.get('origin') or (3, 2))
+    if path == 'formula-2sheets':
+        return formula_eval(case, 'absent', case.get('origin') or (3, 2), split=True)
     raise xl.MachineryError(path)
 
 
@@ -122,6 +140,8 @@ def paths_for(case):
     p.append('formula')
     if any(x['t'] == 'blank' for x in _cells(case)) and _h(case) % 4 == 0:
         p.append('formula-none')
+    if sum(1 for a in case['args'] if a['t'] == 'arr') >= 2 and _h(case) % 2 == 1:
+        p.append('formula-2sheets')       # a range on another sheet, then unqualified ranges
     return p
 
 
